@@ -29,7 +29,7 @@ def check_case(case):
     inv = [r for r in case["reqs"] if r.get("invalid")]
     val = [r for r in case["reqs"] if not r.get("invalid")]
     cls = set(run.classes)
-    nth = any("nth" in f.get("when", {}) for f in case.get("forced", []))
+    nth = any("nth" in f.get("when", {}) or "packet" in f.get("when", {}) for f in case.get("forced", []))
     if nth:
         # one (unknown) request is refused by the controller: it may fail, but whatever is reported successful must be
         # right - in particular a transfer with a refused fragment must not be reported as success
@@ -37,6 +37,8 @@ def check_case(case):
         discs = [d for d in discs if ".valid-fails." not in d.bucket]
         discs += [Disc("forced-nth." + d.bucket, d.detail) for d in run.of("C01", "C02")
                   if d.bucket.startswith(("write.content", "read.value", "read.type"))]   # a refused transfer may be partly applied
+        if any("packet" in f.get("when", {}) for f in case["forced"]) and any(e.get("service") == 0x0A and e.get("status") not in (0, None) for e in run.tgt.log):
+            cls.add("forced-packet.hit")
         executed_forced = [r for r in run.tgt.svc_log if r.get("forced")]
         if executed_forced:
             cls.add("forced-nth.hit")
